@@ -48,6 +48,9 @@ var badContent = map[string][]string{
 	"xml":  {},
 }
 
+// types whose minifier is linear enough for inputs of several MiB
+var hugeOK = map[string]bool{"css": true, "js": true, "json": true, "svg": true, "xml": true, "txt": true, "md": true}
+
 var minifiableExts = []string{"css", "js", "html", "json", "svg", "xml", "mjs", "htm", "tmpl", "php", "asp", "gohtml", "mustache", "handlebars", "ejs"}
 var otherExts = []string{"txt", "md", ""}
 
@@ -72,6 +75,13 @@ func Content(tape *sim.Tape, ext string, allowBad bool) ([]byte, string) {
 		var sb strings.Builder
 		n := 0
 		target := 33000 + tape.Draw(40000)
+		kind := "large"
+		if hugeOK[ext] && tape.Draw(16) == 0 {
+			// several MiB: beyond any threshold at which a tool switches from buffering to
+			// streaming, and hundreds of copy rounds in sync mode
+			target = 4<<20 + tape.Draw(1<<20)
+			kind = "huge"
+		}
 		for sb.Len() < target {
 			switch ext {
 			case "js", "mjs":
@@ -101,7 +111,7 @@ func Content(tape *sim.Tape, ext string, allowBad bool) ([]byte, string) {
 		case "svg", "xml":
 			sb.WriteString("</svg>\n")
 		}
-		return []byte(sb.String()), "large"
+		return []byte(sb.String()), kind
 	}
 	return []byte(good[tape.Draw(len(good))]), "good"
 }
